@@ -142,8 +142,15 @@ def run(rep: vk.Report):
         x = g.pool.vectors[0]
         kind = r.choice(["lp", "qp", "nlp"])
         const = r.choice([0, 5, -2.5, 100])
+        dead = None
         if kind == "lp":
-            obj = g.coeffs(x.size) @ x + const
+            cf = g.coeffs(x.size)
+            obj = r.choice([lambda: cf @ x + const, lambda: const - cf @ x, lambda: (const + 1) - x.sum(), lambda: x @ cf - const,
+                            lambda: const + 2 * x.sum(), lambda: cf @ x[::-1] + const])()
+            if r.random() < 0.4:
+                # a variable whose net coefficient is zero everywhere and that has no bounds: it is still a variable of the model
+                dead = gen.Variable(r.choice(["zz_dead", "a_dead"]))
+                obj = r.choice([lambda: obj + 0 * dead, lambda: obj + (dead - dead), lambda: 0.0 * dead + obj])()
         elif kind == "qp":
             obj = ((x - r.choice([0.5, 1, -1])) ** 2).sum() + const + g.coeffs(x.size) @ x
         else:
@@ -176,6 +183,20 @@ def run(rep: vk.Report):
                 except Exception:
                     break
             hist_count[step] = hist_count.get(step, 0) + 1
+            if sol.values and sol.status in (SolverStatus.OPTIMAL,):
+                want_names = [v.name for v in P.variables]
+                if sorted(sol.values) != sorted(want_names):
+                    rep.violation({"kind": "values", "obligation": "the solution holds a value for exactly the problem's variables",
+                                   "witness": {"objective": repr(P.objective)[:300], "method": meth, "history": list(steps), "variables": want_names,
+                                               "value_keys": sorted(sol.values)}}, concrete=True)
+                    continue
+                if dead is not None and dead.name in want_names:
+                    try:
+                        float(sol[dead])
+                    except Exception as ex:
+                        rep.violation({"kind": "values", "obligation": "every variable of the problem can be retrieved from the solution",
+                                       "witness": {"objective": repr(P.objective)[:300], "method": meth, "variable": dead.name, "error": repr(ex)[:200]}},
+                                      concrete=True)
             if sol.objective_value is None or not sol.values or not np.isfinite(sol.objective_value):
                 continue
             S = ser.Ser()
